@@ -12,6 +12,18 @@ TOL_H = Fr(5, 100)
 TOL_RESTORE = Fr(1, 10 ** 15)
 
 
+def _flag(name):
+    """repair flag of the model (coq/Model/C08_DiffLayout.v): after notes/C08-k2-jac-step.patch the J output of the
+    K=2 routine is computed with the K=1 step, whose squares do not fit 53 bits - J is then compared with the
+    rounding allowance also on the exact stream"""
+    import re
+    try:
+        src = open(os.path.join(vlib.COQ, "Model", "C08_DiffLayout.v")).read()
+    except OSError:
+        return False
+    return re.search(r"Definition\s+" + name + r"\s*:\s*bool\s*:=\s*true\s*\.", src) is not None
+
+
 # ------------------------------------------------------------------------------------------- parsing
 def _parse_case(line):
     t = line.split()
@@ -45,7 +57,21 @@ def _parse_case(line):
 
 
 def _num_impl(s):
-    return Fr(float.fromhex(s))
+    v = float.fromhex(s)
+    if v != v or v in (float("inf"), float("-inf")):
+        return None  # NaN / inf (e.g. a cell the implementation never wrote): never equal to anything
+    return Fr(v)
+
+
+HUGE = Fr(10 ** 30)
+
+
+def _dist(a, b):
+    return HUGE if (a is None or b is None) else abs(a - b)
+
+
+def _flt(a):
+    return None if a is None else float(a)
 
 
 def _num_model(s):
@@ -187,6 +213,7 @@ def _analyse(order, cases, impl, mres, have_model):
     stats = {"exact_stream_bit_exact_cases": 0, "general_stream_cases": 0, "max_relerr_J_K1": 0.0, "max_relerr_J_K2": 0.0,
              "max_relerr_H": 0.0, "max_restore_rel": 0.0, "model_vs_impl_entries": 0}
     model = True if have_model else None
+    fixj = _flag("c08_fix_k2jac")
 
     def bump(k, n=1):
         strata[k] = strata.get(k, 0) + n
@@ -217,12 +244,13 @@ def _analyse(order, cases, impl, mres, have_model):
             bump("has_empty_dynamic_arg")
         base = {"case": cid, "K": K, "mode": "Numerical", "stream": stream, "idx": c["idx"], "case_line": c["line"][:1500]}
         if len(samples) < 6 and K == 2 and stream == "exact" and c["idx"] is not None and len(c["args"]) >= 2:
-            samples.append({"case": c["line"][:600], "impl_J": [[float(v) for v in col] for col in r["J"]][:4]})
+            samples.append({"case": c["line"][:600], "impl_J": [[_flt(v) for v in col] for col in r["J"]][:4]})
         nx = len(o["cols"])
         ny = c["ny"]
         scaleJ = max([Fr(1)] + [abs(v) for row in o["J"] for v in row])
         scaleH = max([Fr(1)] + [abs(v) for Hj in o["H"] for row in Hj for v in row])
-        steps1 = [_step(EPS1 if K == 1 else EPS2, o["isvec"][k], o["z"][o["cols"][k]]) for k in range(nx)]
+        steps1 = [_step(EPS1 if (K == 1 or fixj) else EPS2, o["isvec"][k], o["z"][o["cols"][k]]) for k in range(nx)]
+        stepsH = [_step(EPS2, o["isvec"][k], o["z"][o["cols"][k]]) for k in range(nx)]
 
         # ---------- (a) model == implementation
         m = mres.get(cid)
@@ -254,7 +282,7 @@ def _analyse(order, cases, impl, mres, have_model):
                 else:
                     for cc in range(len(r["J"])):
                         for j in range(len(r["J"][cc])):
-                            ok &= cmp("J", r["J"][cc][j], m["J"][cc][j], 0 if ex else 64 * U * o["fabs"] / steps1[cc], [j, cc])
+                            ok &= cmp("J", r["J"][cc][j], m["J"][cc][j], 0 if (ex and not (K == 2 and fixj)) else 64 * U * o["fabs"] / steps1[cc], [j, cc])
             if r["H"] is not None and m["H"] is not None:
                 if len(r["H"]) != len(m["H"]) or any(len(a) != len(b) for a, b in zip(r["H"], m["H"])):
                     fail(dict(base, check="model_vs_impl", what="H-shape"))
@@ -262,7 +290,7 @@ def _analyse(order, cases, impl, mres, have_model):
                 else:
                     for rr in range(len(r["H"])):
                         for cc in range(len(r["H"][rr])):
-                            tol = 0 if ex else 256 * U * o["fabs"] / (steps1[rr] * steps1[cc % nx] if nx else 1)
+                            tol = 0 if ex else 256 * U * o["fabs"] / (stepsH[rr] * stepsH[cc % nx] if nx else 1)
                             ok &= cmp("H", r["H"][rr][cc], m["H"][rr][cc], tol, [rr, cc])
             if len(m["A"]) == len(r["A"]):
                 for i, (ma, ra) in enumerate(zip(m["A"], r["A"])):
@@ -284,8 +312,8 @@ def _analyse(order, cases, impl, mres, have_model):
             fail(dict(base, check="value", what="size", got=len(r["V"]), want=ny))
         else:
             for j in range(ny):
-                if abs(r["V"][j] - o["val"][j]) > 64 * U * o["fabs"]:
-                    fail(dict(base, check="value", pos=[j], got=float(r["V"][j]), want=float(o["val"][j])))
+                if _dist(r["V"][j], o["val"][j]) > 64 * U * o["fabs"]:
+                    fail(dict(base, check="value", pos=[j], got=_flt(r["V"][j]), want=float(o["val"][j])))
         if K == 0:
             if r["J"] is not None or r["H"] is not None:
                 fail(dict(base, check="k0_value_only"))
@@ -296,19 +324,19 @@ def _analyse(order, cases, impl, mres, have_model):
                 worst = None
                 for cc in range(nx):
                     for j in range(ny):
-                        e = abs(r["J"][cc][j] - o["J"][j][cc])
+                        e = _dist(r["J"][cc][j], o["J"][j][cc])
                         rel = e / scaleJ
                         key = "max_relerr_J_K1" if K == 1 else "max_relerr_J_K2"
                         stats[key] = max(stats[key], float(rel))
                         if rel > TOL_J and (worst is None or rel > worst[0]):
                             # is the error the first-order truncation term h/2 * f'' of the step actually used?
                             pred = o["J"][j][cc] + steps1[cc] / 2 * o["H"][j][cc][cc]
-                            cause = "step-truncation" if abs(r["J"][cc][j] - pred) <= Fr(1, 10 ** 6) * scaleJ else "other"
+                            cause = "step-truncation" if _dist(r["J"][cc][j], pred) <= Fr(1, 10 ** 6) * scaleJ else "other"
                             worst = (rel, cc, j, cause)
                 if worst is not None:
                     rel, cc, j, cause = worst
                     fail(dict(base, check="accuracy_J", cause=(f"k{K}-" + cause), pos=[j, cc], relerr=float(rel),
-                              got=float(r["J"][cc][j]), want=float(o["J"][j][cc]), step=float(steps1[cc])))
+                              got=_flt(r["J"][cc][j]), want=float(o["J"][j][cc]), step=float(steps1[cc])))
         if K == 2:
             if r["H"] is None or len(r["H"]) != nx or any(len(row) != nx * ny for row in r["H"]):
                 fail(dict(base, check="H_shape", want=[nx, nx * ny]))
@@ -317,7 +345,7 @@ def _analyse(order, cases, impl, mres, have_model):
                 for rr in range(nx):
                     for j in range(ny):
                         for cc in range(nx):
-                            e = abs(r["H"][rr][j * nx + cc] - o["H"][j][rr][cc])
+                            e = _dist(r["H"][rr][j * nx + cc], o["H"][j][rr][cc])
                             rel = e / scaleH
                             stats["max_relerr_H"] = max(stats["max_relerr_H"], float(rel))
                             if rel > TOL_H and (worst is None or rel > worst[0]):
@@ -325,7 +353,7 @@ def _analyse(order, cases, impl, mres, have_model):
                 if worst is not None:
                     rel, rr, j, cc = worst
                     fail(dict(base, check="accuracy_H", pos=[rr, j * nx + cc], block=j, entry=[rr, cc], relerr=float(rel),
-                              got=float(r["H"][rr][j * nx + cc]), want=float(o["H"][j][rr][cc])))
+                              got=_flt(r["H"][rr][j * nx + cc]), want=float(o["H"][j][rr][cc])))
         # restore: the caller's objects after the call
         for i, (isv, cs) in enumerate(c["args"]):
             after = r["A"][i] if i < len(r["A"]) else None
@@ -336,13 +364,13 @@ def _analyse(order, cases, impl, mres, have_model):
                 continue
             mx = max([abs(v) for v in cs] + [Fr(0)])
             for k in range(len(cs)):
-                d = abs(after[k] - cs[k])
+                d = _dist(after[k], cs[k])
                 if mx:
                     stats["max_restore_rel"] = max(stats["max_restore_rel"], float(d / mx))
                 lim = TOL_RESTORE * mx if touched else 0
                 if d > lim:
                     fail(dict(base, check="restore", arg=i, coord=k, const=bool(is_const), selected=(i in o["sel"]),
-                              before=float(cs[k]), after=float(after[k]), change=float(d)))
+                              before=float(cs[k]), after=_flt(after[k]), change=float(d)))
     return dict(problems=problems, failures=failures, evaluations=nev, strata=strata, stats=stats, samples=samples)
 
 
@@ -364,6 +392,8 @@ def corr(seed, tier):
         rc, out, err = allruns[-1]
         for line in out.splitlines():
             if line.startswith("{"):
+                import re
+                line = re.sub(r'(?<=[:\[,])\s*(-?nan|-?inf)(?=[,\]}])', 'null', line)  # printf of a NaN entry
                 try:
                     accrep = json.loads(line)
                 except json.JSONDecodeError:
@@ -372,18 +402,32 @@ def corr(seed, tier):
             problems.append({"kind": "harness-crashed", "harness": "h_c08_acc", "rc": rc, "tail": (out[-800:] + err[-800:])})
     cases, impl = {}, {}
     order = []
+    crashes = []
     for b, (rc, out, err) in zip(bins, runs):
-        if rc != 0 or "DONE" not in out:
-            problems.append({"kind": "harness-crashed", "harness": os.path.basename(b), "rc": rc, "tail": (out[-800:] + err[-800:])})
+        crashed = rc != 0 or "DONE" not in out
+        if crashed:
+            problems.append({"kind": "harness-crashed", "harness": os.path.basename(b), "rc": rc, "tail": (out[-300:] + err[-800:])})
+        last_case = None
         for line in out.splitlines():
-            if line.startswith("CASE "):
-                c = _parse_case(line[5:])
-                c["line"] = line[5:]
-                cases[c["id"]] = c
-                order.append(c["id"])
-            elif line.startswith("RES "):
-                r = _parse_res(line[4:], _num_impl)
-                impl[r["id"]] = r
+            try:
+                if line.startswith("CASE "):
+                    c = _parse_case(line[5:])
+                    c["line"] = line[5:]
+                    cases[c["id"]] = c
+                    order.append(c["id"])
+                    last_case = c
+                elif line.startswith("RES "):
+                    r = _parse_res(line[4:], _num_impl)
+                    impl[r["id"]] = r
+                    if last_case is not None and last_case["id"] == r["id"]:
+                        last_case = None
+            except (ValueError, IndexError, AssertionError):
+                continue  # truncated last line of a crashed shard
+        if crashed and last_case is not None:
+            # the call described by the last CASE line never returned: that input crashes the implementation
+            crashes.append({"check": "crash", "case": last_case["id"], "K": last_case["K"], "idx": last_case["idx"],
+                            "case_line": last_case["line"][:1500], "stderr": err[-600:]})
+            order.remove(last_case["id"])
     # ---- run the extracted model on the same cases
     mres = {}
     if model is not None and order:
@@ -399,6 +443,7 @@ def corr(seed, tier):
 
     res = _analyse(order, cases, impl, mres, model is not None)
     res["problems"] = problems + res["problems"]
+    res["failures"] = crashes + res["failures"]
     if not order:
         res["problems"].append({"kind": "harness-produced-no-cases", "harness": "h_c08"})
     if accrep is not None:
